@@ -41,7 +41,7 @@ def universe(r):
     ee = doc.gen_lexicon(r, v, 'exx', '1', p, base=e1)
     e2 = doc.gen_lexicon(r, v, 'ey', '2', p, base=b1)
     dep = doc.gen_lexicon(r, v, 'dep', '1', p, requires=[('ba', '1'), ('un', '1')], idprefix='d-')
-    req = doc.gen_lexicon(r, v, 'req', '2', p, requires=[('missing', '9')], idprefix='q-')
+    req = doc.gen_lexicon(r, v, 'req', '2', p, requires=[('missing', '9'), ('ex', '1'), ('ba', '2')], idprefix='q-')   # a provider may be an extension
     un = doc.gen_lexicon(r, v, 'un', '1', p, idprefix='b-')   # same ids as the base on purpose
     old = doc.gen_lexicon(r, '1.0', 'old', '1', doc.Profile(max_entries=3, max_synsets=3, ili='shared'), idprefix='o-')
     lex = {'b1': b1, 'b2': b2, 'e1': e1, 'ee': ee, 'e2': e2, 'dep': dep, 'req': req, 'un': un, 'old': old}
